@@ -241,6 +241,13 @@ def run(ctx: Ctx) -> None:
     ctx.rule("R17.7", "type-id positions (parameter, alias, template argument) accept the array suffix that format() writes", minimum=3)
     type_id_array_suffix(ctx, "R17.7", pm)
 
+    # ---------------------------------------------------------------- R17.8
+    # a formatted type with template arguments parses back only if every argument that format() writes as a type-id is
+    # tried (and kept) as a type: the trial-parse rules of C02 (R2.2), evaluated here under this property's id
+    from . import c02 as _c02
+    from ..report import run_shared as _run_shared
+    _run_shared(ctx, _c02.run, {"R2.2": ("R17.8", "template arguments that are type-ids (as format() writes them: cv-qualifier first) are parsed back as types")})
+
     # ---------------------------------------------------------------- R17.6
     from . import c16
     from ..report import SubCtx, run_shared
